@@ -76,7 +76,7 @@ def check_long(chk, exes):
                     chk.violation("the normal form of a long reference is not the expected one (%d characters expected; after one and after two normalizations)" % len(want), info)
 
 def run(chk):
-    extra = tuple(x for x in ("C08text", "C08rel", "C08all") if os.path.exists(os.path.join(lib.COQ, "Props", x + ".v")))
+    extra = tuple(x for x in ("C08text", "C08rel", "C08all", "C08spec") if os.path.exists(os.path.join(lib.COQ, "Props", x + ".v")))
     proofs = lib.check_proofs(PID, extra_props=extra)
     exes = lib.build_impl(); mdl = lib.build_model()
     fnd = lib.Findings(PID)
